@@ -134,7 +134,7 @@ impl World for WorldI {
                     meta: gen_meta(rng, true),
                     supply: *rng.pick(&[-5i64, 0, 0, 7, 1000, 1000]),
                     minter: match rng.weighted(&[4, 4, 2, 1]) { 0 => MinterSpec::None, 1 => MinterSpec::User(rng.below(4) as u8), 2 => MinterSpec::Deployer, _ => MinterSpec::Service },
-                    auth: if fault { user_fault(rng) } else { AuthVar::Right },
+                    auth: if fault { user_fault(rng) } else if f_auth && rng.chance(1, 6) { AuthVar::Everyone } else { AuthVar::Right },
                     abort,
                 },
                 2 => IOp::Register { tok: if rng.chance(4, 5) { rng.below(4) as u8 } else { rng.below(8) as u8 }, abort },
@@ -147,7 +147,7 @@ impl World for WorldI {
                     data: if rng.chance(1, 3) { Some(rng.below(4) as u8) } else { None },
                     gas_tok: if rng.chance(3, 4) { rng.below(2) as u8 } else { rng.below(8) as u8 },
                     gas: *rng.pick(&[1i64, 1, 10, 100, 0, -1, 1_000_000]),
-                    auth: if fault { user_fault(rng) } else { AuthVar::Right },
+                    auth: if fault { user_fault(rng) } else if f_auth && rng.chance(1, 6) { AuthVar::Everyone } else { AuthVar::Right },
                     abort,
                 },
                 4 => {
@@ -162,7 +162,7 @@ impl World for WorldI {
                     chain: if !cfg.initial_trusted.is_empty() && rng.chance(2, 3) { *rng.pick(&cfg.initial_trusted) } else { rng.below(CHAINS.len() as u64) as u8 },
                     gas_tok: rng.below(2) as u8,
                     gas: *rng.pick(&[1i64, 1, 10, 0, -1, 1_000_000]),
-                    auth: if fault { user_fault(rng) } else { AuthVar::Right },
+                    auth: if fault { user_fault(rng) } else if f_auth && rng.chance(1, 6) { AuthVar::Everyone } else { AuthVar::Right },
                     abort,
                 }},
                 5 => IOp::DeployRemoteCanonical {
@@ -174,7 +174,7 @@ impl World for WorldI {
                     spender: rng.below(4) as u8,
                     gas_tok: rng.below(2) as u8,
                     gas: *rng.pick(&[1i64, 1, 10, 0, -1, 1_000_000]),
-                    auth: if fault { user_fault(rng) } else { AuthVar::Right },
+                    auth: if fault { user_fault(rng) } else if f_auth && rng.chance(1, 6) { AuthVar::Everyone } else { AuthVar::Right },
                     abort,
                 },
                 6 => {
@@ -255,6 +255,7 @@ impl World for WorldI {
                 break;
             }
             ctx.step = i;
+            ex.sim.permissive_next = false;
             let eff = match op {
                 IOp::Resubmit { k } => {
                     if ex.history.is_empty() {
